@@ -56,8 +56,11 @@ def run_one(ck, prog):
         for s in panics.sites(ctx):
             n_sites += 1
             ok, why = panics.discharge(ctx, s)
-            rk = (name, s["key"])
-            if not ok and rk in REVIEWED:
+            # reviewed entries are matched with the names of local variables blanked out (a renamed counter is the same counter)
+            import re as _re
+            blank = lambda k: _re.sub(r"var:[A-Za-z_0-9]+", "var:_", k)  # noqa: E731
+            rk = next(((n_, k_) for (n_, k_) in REVIEWED if n_ == name and blank(k_) == blank(s["key"])), None)
+            if not ok and rk is not None:
                 ok, why = True, "reviewed: " + REVIEWED[rk]
                 used_reviews.add(rk)
             from ..engine.cfg import span_str
